@@ -36,7 +36,7 @@ func universe() []common.Address {
 	u := append([]common.Address{}, eoas...)
 	u = append(u, contracts...)
 	u = append(u, outsiders...)
-	u = append(u, common.FeeAccount, rpgAddr)
+	u = append(u, common.FeeAccount, rpgAddr, authorityAddr())
 	return u
 }
 
@@ -358,6 +358,10 @@ func (g *Gen) setup(withContracts bool) {
 	if g.r.Chance(1, 3) {
 		w.Set(common.FeeAccount, g.startBalance())
 	}
+	if g.r.Chance(2, 3) {
+		// the AUTH authority is a party of every AUTHCALL: its balance varies independently of the sponsor's
+		w.Set(authorityAddr(), g.startBalance())
+	}
 	if !withContracts {
 		return
 	}
@@ -418,6 +422,10 @@ func (g *Gen) setup(withContracts bool) {
 			to = outsiders[0]
 		}
 		ac := Act{Kind: "ac", To: to, Val: g.smallValue(eoas[g.r.Intn(len(eoas))])}
+		if g.r.Chance(1, 3) {
+			// around the authority's balance: the guard must look at the sponsor (tx origin), not at the authority
+			ac.Val = g.smallValue(authorityAddr())
+		}
 		if g.r.Bool() {
 			ac.Val = new(big.Int).Add(rpg(int64(1+g.r.Intn(3))), big.NewInt(int64(g.r.Intn(1000))))
 		}
